@@ -49,6 +49,9 @@ func vgfRunC07(t *rapid.T, kinds []string) {
 	for p := range m.paths {
 		c.Class("path:" + p)
 	}
+	for ev := range m.events {
+		c.Class(ev)
+	}
 	c.ClassIf(m.crossPath, "crossPathAfterRead")
 	c.ClassIf(m.wide, "containerBeyondInlineSize")
 	c.NT(m.crossPath)
